@@ -988,6 +988,19 @@ def _capture(exc, tb, step, d, mods):
         buf = io.StringIO()
         tbutils.print_exception(et, exc, tb, file=buf)
         obs["print"] = buf.getvalue()
+        # the same through the defaults: file=None means sys.stderr; fix_print_exception installs it as the hook
+        import contextlib
+        buf2 = io.StringIO()
+        with contextlib.redirect_stderr(buf2):
+            tbutils.print_exception(et, exc, tb)
+        old_hook = sys.excepthook
+        try:
+            tbutils.fix_print_exception()
+            hook_ok = sys.excepthook is tbutils.print_exception
+        finally:
+            sys.excepthook = old_hook
+        if buf2.getvalue() != obs["print"] or not hook_ok or tbutils.ParsedTB is not tbutils.ParsedException:
+            raise RuntimeError("print_exception default file / fix_print_exception / ParsedTB alias inconsistent")
         obs["parsed"] = _parse_obs(obs["fmt"])[0]
         obs["ctx"] = tbutils.ContextualExceptionInfo.from_exc_info(et, exc, tb).get_formatted()
     # ---- the interpreter's view, now ---------------------------------------------------------
